@@ -452,6 +452,50 @@ func c08Kademlia(c *c08Ctx) {
 			}
 		}
 	}
+	// the same handlers the way receive workers call them: from several goroutines at once, on one node, while peers come
+	// and go. A runtime-fatal error (concurrent map access) ends the child, which is the detector.
+	{
+		node := kademlia.NewDHTNode(kademlia.DHTNodeParams{LocalID: local, PeerCacheSize: 64, DataCacheSize: 8})
+		var wg sync.WaitGroup
+		per := c08n(c, 4000, 20000, false)
+		for w := 0; w < 8; w++ {
+			lg := g.Fork()
+			wg.Add(1)
+			go func(w int) {
+				defer wg.Done()
+				for i := 0; i < per; i++ {
+					var id p2p.PeerID
+					lg.Fill(id[:])
+					id[0] = local[0]
+					if lg.Chance(1, 3) {
+						id[1] = local[1]
+					}
+					key := lg.Bytes(lg.Intn(40))
+					limit := int(int64(rng.Pick(lg, interesting)))
+					op := lg.Intn(6)
+					c.guard("DHTNode.handlers/concurrent", "dht-concurrent", append([]byte{byte(op)}, key...), func() {
+						switch op {
+						case 0:
+							node.AddPeer(id, key)
+						case 1:
+							node.RemovePeer(id)
+						case 2:
+							node.HandlePut(id, kademlia.PutReq{Key: key, Value: key, TTLms: rng.Pick(lg, interesting)})
+						case 3:
+							node.HandleGet(id, kademlia.GetReq{Key: key})
+						case 4:
+							node.HandleFindNode(id, kademlia.FindNodeReq{Target: id, Limit: limit})
+						default:
+							node.ListNodeInfos(key, limit)
+							node.GetPeer(id)
+						}
+					})
+				}
+			}(w)
+		}
+		wg.Wait()
+		c.r.NonTrivial("dht/concurrent-handlers")
+	}
 	// cache calls with hostile keys and prefix lengths
 	for i := 0; i < n/4; i++ {
 		loc := g.Bytes(g.Range(0, 5))
